@@ -149,18 +149,23 @@ pub fn run(cx: &mut Ctx, idx: u64) {
     let u = universe(cx.thorough);
     let Some(w) = u.word(idx) else { return };
     let what = || w.iter().map(|l| ALPHABET[*l].name).collect::<Vec<_>>().join(" ");
+    // words of up to 3 letters: every configuration, bare and in both file wrappings (+ open_file);
+    // longer words: every data set configuration on the bare encoding, the lean set on the file with preamble
+    let short = w.len() <= 3;
     for ti in 0..3 {
         let mut d = Vec::new();
         for l in &w {
             d.extend_from_slice(&u.enc[ti][*l]);
         }
         eps::dataset_eps(cx, ti, &d, &what, Depth::Full);
-        for (pi, pn) in [(0usize, "no-preamble"), (1, "preamble")] {
+        for (pi, pn) in [(1usize, "preamble"), (0, "no-preamble")] {
+            if !short && pi == 0 {
+                continue;
+            }
             let mut f = u.heads[ti][pi].clone();
             f.extend_from_slice(&d);
             let label = format!("{}/{}", eps::TS3_NAMES[ti], pn);
-            // all configurations on the file with preamble; the lean set without it
-            eps::file_eps(cx, &f, &label, &what, if pi == 1 { Depth::Full } else { Depth::Lean }, pi == 1 && w.len() <= 3);
+            eps::file_eps(cx, &f, &label, &what, if short && pi == 1 { Depth::Full } else { Depth::Lean }, short && pi == 1 && w.len() <= 2);
         }
     }
 }
